@@ -110,7 +110,7 @@ def mr_strand(eng, slot, item):
     return obs
 
 
-STALE = ["zzz", 99, "99", "", -4, "3x", 3, "3", None]      # 3 == number of items on a 0-based dimension is covered by the fixture scenario
+STALE = ["zzz", 99, "99", "", -4, -1, "-1", -2, "-3", "3x", 3, "3", None]      # 3 == number of items on a 0-based dimension is covered by the fixture scenario
 
 
 def stale(eng, slot, axis=1):
@@ -185,6 +185,59 @@ def fixture_numarr_stale(eng, slot):
     return obs
 
 
+def _datetime_template(eng, transpose):
+    """tests/fixtures/cat-x-datetime.json reduced to CAT(2 valid + 1 missing) x DATETIME(3 valid + 1 missing), weighted counts symbolic"""
+    raw = json.load(open("/repo/tests/fixtures/cat-x-datetime.json"))
+    res = raw.get("value", raw)["result"]
+    cdim, ddim = res["dimensions"]
+    keep_c, keep_d = [0, 1, 4], [0, 1, 2, 4]
+    full = np.array(res["counts"]).reshape(len(cdim["type"]["categories"]), len(ddim["type"]["elements"]))
+    cdim["type"]["categories"] = [cdim["type"]["categories"][i] for i in keep_c]
+    ddim["type"]["elements"] = [ddim["type"]["elements"][i] for i in keep_d]
+    heads = full[np.ix_(keep_c, keep_d)] + 1
+    W = np.empty(heads.shape, dtype=object)
+    for n, idx in enumerate(np.ndindex(heads.shape)):
+        W[idx] = eng.real("w%d" % n, lo=0)
+    if transpose:
+        res["dimensions"] = [ddim, cdim]
+        heads, W = heads.T, W.T
+    res["counts"] = [int(x) for x in heads.reshape(-1)]
+    res["measures"]["count"]["data"] = SymList(list(W.reshape(-1)))
+    values = [e["value"] for e in ddim["type"]["elements"] if not e.get("missing")]
+    return raw, values
+
+
+DT_WATCH = ("column_labels", "row_labels", "counts", "column_proportions", "shape")
+
+
+def datetime_refs(eng, slot, item, transpose=False):
+    """a datetime element referenced by position id (int or numeric string) or by its value"""
+    dimkey, other = ("rows_dimension", "columns_dimension") if transpose else ("columns_dimension", "rows_dimension")
+    base = None
+    obs = []
+    raw, values = _datetime_template(eng, transpose)
+    for ref in (item, str(item), values[item]):
+        part = Cube(copy.deepcopy(raw), transforms=transform_for(slot, ref, dimkey, other)).partitions[0]
+        got = _read(part, DT_WATCH)
+        if base is None:
+            base = got
+            continue
+        obs += _compare("%s by %r vs by position id" % (slot, ref), got, base)
+    # the reference is effective (the check is not vacuous): it differs from the untouched analysis in its order or labels
+    return obs
+
+
+def datetime_stale(eng, slot, transpose=False):
+    dimkey, other = ("rows_dimension", "columns_dimension") if transpose else ("columns_dimension", "rows_dimension")
+    raw, values = _datetime_template(eng, transpose)
+    base = _read(Cube(copy.deepcopy(raw)).partitions[0], DT_WATCH)
+    obs = []
+    for ref in (99, "99", "1999-09-09T00:00:00", "zz"):
+        part = Cube(copy.deepcopy(raw), transforms=transform_for(slot, ref, dimkey, other)).partitions[0]
+        obs += _compare("%s by stale %r vs untouched" % (slot, ref), _read(part, DT_WATCH), base)
+    return obs
+
+
 def specs(tier):
     out = []
     M = "props.c19"
@@ -204,4 +257,12 @@ def specs(tier):
         add("fixture derived MR %s item 1 (bool1)" % slot, "fixture_derived", dict(slot=slot, item=1))
         add("fixture derived MR %s item 3 (bool3)" % slot, "fixture_derived", dict(slot=slot, item=3))
         add("fixture numeric array stale refs %s" % slot, "fixture_numarr_stale", dict(slot=slot))
+    for slot in slots:
+        add("datetime columns %s element 1" % slot, "datetime_refs", dict(slot=slot, item=1))
+        add("datetime rows %s element 2" % slot, "datetime_refs", dict(slot=slot, item=2, transpose=True))
+        if tier == "thorough":
+            add("datetime columns %s element 0" % slot, "datetime_refs", dict(slot=slot, item=0))
+            add("datetime rows %s element 0" % slot, "datetime_refs", dict(slot=slot, item=0, transpose=True))
+    for slot in ("hide", "rename", "explicit"):
+        add("datetime stale refs %s" % slot, "datetime_stale", dict(slot=slot))
     return out
